@@ -170,6 +170,8 @@ type sysB struct {
 	base  int32
 	gb    int32
 	inst  []inst
+	// mixed fleet: instance 0 leaves the optional strategy field of its report items empty (an older gateway build)
+	omitStrategy0 bool
 }
 
 func (s *sysB) cluster() *proxyv1alpha1.UpstreamCluster {
@@ -261,6 +263,47 @@ func saturatedHandover(c *ev.Check) {
 	}
 }
 
+// longRuns: growth takes rounds - quotas start small and grow by a share of what looks free, so "everything handed
+// out" is many reports away from the start (beyond the BFS depth). Directed long runs with the same step oracle: 2
+// and 3 instances under constant full / over load, round-robin for 30 rounds, limits 10 / 100 / 1000, both schema
+// types, also with a mixed fleet (instance 0 omits the strategy field).
+func longRuns(c *ev.Check) {
+	for _, typ := range []proxyv1alpha1.FlowControlSchemaType{MIF, TB} {
+		for _, base := range []int32{10, 100, 1000} {
+			for _, k := range []int{2, 3} {
+				for _, store := range []string{"local", "local-mixed-fleet"} {
+					for _, load := range []string{"full", "over", "alternating"} {
+						sp := specBOn(typ, k, base, store)
+						sys := sp.New()
+						var hist []string
+						for round := 0; round < 30; round++ {
+							for i := 0; i < k; i++ {
+								l := load
+								if load == "alternating" {
+									l = []string{"over", "idle", "full"}[(round+i)%3]
+								}
+								e := fmt.Sprintf("report %d %s", i, l)
+								hist = append(hist, e)
+								c.Add("transitions", 1)
+								if err := sp.Apply(sys, e); err != nil {
+									key := strings.SplitN(err.Error(), ":", 2)[0]
+									c.Violation("long-run/"+store+"/"+key, fmt.Sprintf("%s, %d instances, limit %d, load %s, after %d reports: %v", typ, k, base, load, len(hist), err), map[string]interface{}{"spec": sp.Name, "history": hist})
+									round = 1000
+									break
+								}
+							}
+						}
+						c.Add("long_runs", 1)
+						if sp.Close != nil {
+							sp.Close(sys)
+						}
+					}
+				}
+			}
+		}
+	}
+}
+
 func instName(i int) string { return fmt.Sprintf("gw%d", i) }
 
 func specB(typ proxyv1alpha1.FlowControlSchemaType, k int, base int32) xstate.Spec {
@@ -283,6 +326,7 @@ func specBOn(typ proxyv1alpha1.FlowControlSchemaType, k int, base int32, store s
 			if store == "k8s-writeback" {
 				s.rig = limrig.NewWithSyncPeriod(1, "k8s", 24*time.Hour)
 			}
+			s.omitStrategy0 = store == "local-mixed-fleet"
 			s.rig.Gain(0)
 			if err := s.rig.ApplyCluster(s.cluster()); err != nil {
 				panic(err)
@@ -297,7 +341,7 @@ func specBOn(typ proxyv1alpha1.FlowControlSchemaType, k int, base int32, store s
 				}
 			}
 			evs = append(evs, "limit down", "limit up")
-			if store != "local" {
+			if store == "k8s-writeback" {
 				evs = append(evs, "flush", "handover") // handover: the shard is given up (final flush) and taken again (load)
 			}
 			if typ == TB {
@@ -383,6 +427,9 @@ func specBOn(typ proxyv1alpha1.FlowControlSchemaType, k int, base int32, store s
 			rep := limrig.Report(upstream, instName(i), "s", s.typ, proxyv1alpha1.GlobalAllocateLimit, in.last, in.lastBurst, used, lvl)
 			if in.last == 0 {
 				rep.Spec.LimitItemConfigurations[0].LimitItemDetail = proxyv1alpha1.LimitItemDetail{}
+			}
+			if s.omitStrategy0 && i == 0 {
+				rep.Spec.LimitItemConfigurations[0].Strategy = ""
 			}
 			prev := in.last
 			ans, err := s.rig.L.UpdateRateLimitConditionStatus(upstream, rep)
@@ -588,9 +635,18 @@ func main() {
 			specs = append(specs, specB(typ, 2, base))
 		}
 	}
-	specs = append(specs, specB(MIF, 3, 100), specB(MIF, 3, 10), specBOn(MIF, 2, 10, "k8s-writeback"), specBOn(TB, 2, 100, "k8s-writeback"))
+	specs = append(specs, specB(MIF, 3, 100), specB(MIF, 3, 10), specBOn(MIF, 2, 10, "k8s-writeback"), specBOn(TB, 2, 100, "k8s-writeback"),
+		specBOn(MIF, 2, 10, "local-mixed-fleet"), specBOn(TB, 2, 100, "local-mixed-fleet"))
 	if c.ReplayFile() != "" {
-		xstate.ReplayIfAsked(c, specs)
+		replayable := append([]xstate.Spec{}, specs...)
+		for _, typ := range []proxyv1alpha1.FlowControlSchemaType{MIF, TB} { // the specs of longRuns
+			for _, base := range []int32{10, 100, 1000} {
+				for _, k := range []int{2, 3} {
+					replayable = append(replayable, specBOn(typ, k, base, "local"), specBOn(typ, k, base, "local-mixed-fleet"))
+				}
+			}
+		}
+		xstate.ReplayIfAsked(c, replayable)
 		xa.ReplayIfAsked(c, harnesses(c, 0))
 	}
 	var tasks []ev.Task
@@ -618,6 +674,7 @@ func main() {
 		}
 	}
 	tasks = append(tasks, ev.Task{Name: "saturated-handover", Run: func() { saturatedHandover(c) }})
+	tasks = append(tasks, ev.Task{Name: "long-runs", Run: func() { longRuns(c) }})
 	c.RunTasks(tasks)
 	c.Finish(map[string]interface{}{
 		"states":                        c.Counter("states") + c.Counter("choice_points"),
